@@ -19,7 +19,10 @@ def parseAction (s : String) : Option Action :=
   | c :: r =>
     let num : Option Nat := if r.isEmpty then some 0 else (String.ofList r).toNat?
     match c, num with
-    | 'L', some k => if 1 ≤ k ∧ k < 8 then some (.launch k) else none
+    | 'L', some k => if 1 ≤ k ∧ k < 8 then some (.launch k false 0) else none
+    | 'P', some k => if 1 ≤ k ∧ k < 8 then some (.launch k true 0) else none
+    | 'Q', some k => if 1 ≤ k ∧ k < 8 then some (.launch k true 1) else none
+    | 'R', some k => if 1 ≤ k ∧ k < 8 then some (.launch k true 2) else none
     | 'J', some k => if 1 ≤ k ∧ k < 8 then some (.join k) else none
     | 'D', some k => if 1 ≤ k ∧ k < 8 then some (.cleanup k) else none
     | 'A', some k => some (.atexit k)
